@@ -240,4 +240,8 @@ class ZeroLinearOperator(LinearOperator):
         self: Float[LinearOperator, "... #M #N"],
         other: Union[Float[Tensor, "... #M #N"], Float[LinearOperator, "... #M #N"], float],
     ) -> Union[Float[LinearOperator, "... M N"], Float[Tensor, "... M N"]]:
+        if torch.is_tensor(other) or isinstance(other, LinearOperator):
+            shape = torch.broadcast_shapes(self.shape, other.shape)
+            if other.shape != shape:
+                other = other.expand(*shape)
         return other
